@@ -4,6 +4,7 @@ import PtnModel.Driver.OpGraph
 import PtnModel.Driver.BondOps
 import PtnModel.Driver.MPS
 import PtnModel.Driver.Hist
+import PtnModel.Driver.Heap
 import PtnModel.Driver.Krylov
 /-!
 Line-protocol driver: one JSON object per input line (`{"op": name, ...}`), one JSON line out.
@@ -17,6 +18,7 @@ def handlers : List Handler := [
   Ptn.Drv.BondOps.handle,
   Ptn.Drv.MPSDrv.handle,
   Ptn.Drv.HistDrv.handle,
+  Ptn.Drv.HeapDrv.handle,
   Ptn.Drv.Krylov.handle
 ]
 
